@@ -449,7 +449,15 @@ def replay7(hist, *, check_from=0) -> mut.Run:
     links = []
     ncopies = 0
     npairs = 0
+    poisoned = False
     for si, op in enumerate(hist["ops"]):
+        if poisoned:
+            # after a runaway copy the trees hold hundreds of nested nodes: nothing further is executed or rendered
+            run.coq_ops.append("(OClear 999)")
+            res = [1, mut.EMODEL]
+            run.obs.append([res, [[-3]]])
+            run.steps.append(dict(op=op, res=res, before=[[-3]], after=[[-3]], new_ids=[], new_trees=[], coq=run.coq_ops[-1]))
+            continue
         alloc0 = w.allocated()
         ntrees0 = len(w.trees)
         try:
@@ -486,7 +494,11 @@ def replay7(hist, *, check_from=0) -> mut.Run:
         run.steps.append(step)
         kind = op[0] + (":" + H.ERR_NAMES.get(res[1], str(res[1])) if res[0] else "")
         run.stats[kind] = run.stats.get(kind, 0) + 1
-        if judged:
+        if runaway:
+            poisoned = True
+        if judged and runaway:
+            run.fails.append((si, "copy", f"copy: the {op[0]} allocated {len(step['new_ids'])} nodes before failing (runaway copy into the own branch)"))
+        elif judged:
             s1 = Snap(w)
             msg, info = copy_oracle(w, step, s0, s1)
             if msg:
@@ -663,14 +675,18 @@ class Gen7(mut.Gen):
     """source -> one copy -> random mutation history on source or copy (stateful: looks at the live trees)."""
 
     def branch_ids(self, tops):
-        out = []
+        """relative ids of the live nodes below (and including) `tops`; safe on a corrupted (cyclic) structure"""
+        out, seen = [], set()
         for t in tops:
             nd = self.w.raw(t)
             if nd is None or nd._tree is None or not any(nd._tree is x for x in self.w.trees):
                 continue
             stack = [nd]
-            while stack:
+            while stack and len(out) < 500:
                 a = stack.pop()
+                if id(a) in seen:
+                    continue
+                seen.add(id(a))
                 out.append(self.w.rel(a))
                 stack.extend(a._children or ())
         return out
@@ -709,6 +725,11 @@ class Gen7(mut.Gen):
                             rng.randrange(nd), None, kind])
         if k == "move":
             tgt = rng.choice(ids + [0])
+            if tgt:
+                # a move into the own branch is refused by the repaired code and corrupts the unrepaired one (D01): not generated
+                nn, tn = w.live_node(n, ti), w.live_node(tgt, ti)
+                if tn is None or tn is nn or tn.is_descendant_of(nn):
+                    return None
             return self.do(["move", ti, n, ti, tgt, self.before_arg(ti, tgt)])
         if k == "addnode":
             return self.do(["addnode", ti, rng.choice(ids + [0]), ti, n, None, kind, None, rng.choice([None, True, False])])
